@@ -35,6 +35,9 @@ struct Ctx {
     /// evaluations of the first job still to be skipped (they were executed by a previous child)
     skip: u64,
     eval_idx: u64,
+    /// fold of the event-log hashes of the evaluations of the current job (written to the journal's END line;
+    /// the determinism self-test compares it between runs)
+    job_hash: u64,
 }
 impl Ctx {
     /// run one explicit case inside an already prepared environment and account for it
@@ -126,6 +129,7 @@ impl Ctx {
         }
         let e = self.stats.counters.entry("log_hash_acc".into()).or_insert(0);
         *e = e.wrapping_mul(0x100000001b3) ^ j.log_hash;
+        self.job_hash = self.job_hash.wrapping_mul(0x100000001b3) ^ j.log_hash;
         if let Some(v) = &j.violation {
             self.viol_count += 1;
             self.stats.inc("violations_raw");
@@ -905,12 +909,15 @@ fn supervise(ctx: &mut Ctx, prop: &str, seed: u64, from: u64, to: u64, stride: u
             };
             match tag {
                 "J" => {
-                    if let Some(j) = cur_job {
-                        ctx.journal.line(&format!("END {} {}", j, ctx.viol_count));
-                    }
                     let j: u64 = rest.parse().unwrap_or(0);
+                    if cur_job != Some(j) {
+                        if let Some(pj) = cur_job {
+                            ctx.journal.line(&format!("END {} {} {:016x}", pj, ctx.viol_count, ctx.job_hash));
+                        }
+                        ctx.job_hash = 0;
+                        ctx.journal.line(&format!("BEGIN {}", j));
+                    }
                     cur_job = Some(j);
-                    ctx.journal.line(&format!("BEGIN {}", j));
                 }
                 "B" => {
                     let mut it = rest.splitn(3, ' ');
@@ -952,7 +959,7 @@ fn supervise(ctx: &mut Ctx, prop: &str, seed: u64, from: u64, to: u64, stride: u
         let _ = last_done_eval;
         if let Some(d) = done_at {
             if let Some(j) = cur_job {
-                ctx.journal.line(&format!("END {} {}", j, ctx.viol_count));
+                ctx.journal.line(&format!("END {} {} {:016x}", j, ctx.viol_count, ctx.job_hash));
             }
             return d;
         }
@@ -1069,6 +1076,7 @@ fn main() {
                 emit: None,
                 skip: 0,
                 eval_idx: 0,
+                job_hash: 0,
             };
             let supervised = prop == "C06" && !flag(&args, "--no-fork") && !ctx.trace;
             ctx.stats.max_samples = 12;
@@ -1085,10 +1093,11 @@ fn main() {
             }
             while i < to {
                 ctx.journal.line(&format!("BEGIN {}", i));
+                ctx.job_hash = 0;
                 let t0 = std::time::Instant::now();
                 let e0 = ctx.stats.counters.get("evals").copied().unwrap_or(0);
                 run_job(&mut ctx, &prop, seed, i);
-                ctx.journal.line(&format!("END {} {}", i, ctx.viol_count));
+                ctx.journal.line(&format!("END {} {} {:016x}", i, ctx.viol_count, ctx.job_hash));
                 if std::env::var("SIM_SLOW").is_ok() && t0.elapsed().as_millis() > 1500 {
                     eprintln!("slow job {}: {} ms, {} evals", i, t0.elapsed().as_millis(), ctx.stats.counters.get("evals").copied().unwrap_or(0) - e0);
                 }
